@@ -60,7 +60,17 @@ def coq_files():
     return res
 
 
-def build(log=None):
+def prop_targets(prop_id):
+    """the .vo files coq/props/<id>.v imports directly (coqdep), plus the extraction: what a check of that property needs built"""
+    rc, so, se = sh(["coqdep", "-R", ".", "NV", "props/%s.v" % prop_id], cwd=COQ, timeout=120)
+    deps = []
+    for line in so.split("\n"):
+        if line.startswith("props/%s.vo" % prop_id):
+            deps = [w for w in line.split(":", 1)[1].split() if w.endswith(".vo")]
+    return sorted(set(deps + ["model/Extract.vo"]))
+
+
+def build(log=None, prop_id=None):
     """Regenerate coq/gen from /repo's working tree, rebuild every .vo that is out of date (make -k),
     re-extract and recompile the OCaml driver.  Returns {"gen": {...}, "failed": [files], "log": str}."""
     t0 = time.time()
@@ -73,11 +83,21 @@ def build(log=None):
             gen_report = {"error": "gen.py failed: rc=%s %s %s" % (rc, so[-2000:], se[-2000:])}
         if not os.path.exists(os.path.join(COQ, "Makefile")):
             sh("coq_makefile -f _CoqProject -o Makefile", cwd=COQ, timeout=120)
-        rc, so, se = sh("make -k -j%d 2>&1" % min(16, os.cpu_count() or 4), cwd=COQ, timeout=3000)
+        targets = " ".join(prop_targets(prop_id)) if prop_id else ""
+        rc, so, se = sh("make -k -j%d %s 2>&1" % (min(16, os.cpu_count() or 4), targets), cwd=COQ, timeout=3000)
         mlog = so + se
         # what is still out of date after `make -k` did not build (the file itself failed, or something it depends on did)
-        rc_n, so_n, se_n = sh("make -n -k 2>&1", cwd=COQ, timeout=600)
+        rc_n, so_n, se_n = sh("make -n -k %s 2>&1" % targets, cwd=COQ, timeout=600)
         failed = sorted(set(re.findall(r'COQC (\S+\.v)', so_n)) | set(f for f in coq_files() if not os.path.exists(os.path.join(COQ, f))))
+        failed_props = failed_model = failed
+        if prop_id:        # only what this property needs counts: the files its theorems depend on, and the files the executable model depends on
+            def closure(tg):
+                rc_d, so_d, _ = sh("make -n -B -k %s 2>&1" % " ".join(tg), cwd=COQ, timeout=600)
+                return set(re.findall(r'COQC (\S+\.v)', so_d))
+            tp = [t for t in prop_targets(prop_id) if t != "model/Extract.vo"]
+            failed_props = [f for f in failed if f in closure(tp)]
+            failed_model = [f for f in failed if f in closure(["model/Extract.vo"])]
+            failed = sorted(set(failed_props) | set(failed_model))
         # extraction output lands in coq/ (cwd of coqc); move and compile if newer than the driver
         drv = os.path.join(OCAML, "drv")
         mdl = os.path.join(COQ, "model.ml")
@@ -94,7 +114,7 @@ def build(log=None):
                 mlog += "\nOCAML BUILD FAILED\n" + so2 + se2
         if "model/Extract.v" in failed or not os.path.exists(drv):
             drv_ok = False
-    res = {"gen": gen_report, "failed": failed, "driver_ok": drv_ok, "log": mlog[-20000:], "wall_s": round(time.time() - t0, 1)}
+    res = {"gen": gen_report, "failed": failed, "failed_props": failed_props, "failed_model": failed_model, "driver_ok": drv_ok, "log": mlog[-20000:], "wall_s": round(time.time() - t0, 1)}
     if log:
         with open(log, "w") as f:
             f.write(mlog)
